@@ -100,9 +100,16 @@ pub fn gen_xscenario(rng: &mut Rng) -> XScenario {
     let mut program: Vec<Stmt> = prog.into_iter().map(|p| p.0).collect();
     // make sure something is declared as output: re-declare up to three bound names
     let names: Vec<String> = g.vars.iter().map(|v| v.0.clone()).collect();
-    for _ in 0..rng.range(1, 3) {
-        if !names.is_empty() {
-            program.push(Stmt::Output(rng.pick(&names).clone(), None));
+    if rng.chance(1, 2) {
+        // every bound name is declared, so that every value of the program reaches the object
+        for n in names.iter().take(16) {
+            program.push(Stmt::Output(n.clone(), None));
+        }
+    } else {
+        for _ in 0..rng.range(1, 3) {
+            if !names.is_empty() {
+                program.push(Stmt::Output(rng.pick(&names).clone(), None));
+            }
         }
     }
     let inputs_json = crate::c02::gen_inputs(rng);
@@ -151,6 +158,34 @@ pub fn gen_xscenario(rng: &mut Rng) -> XScenario {
 pub struct XExec {
     pub results: Vec<RunResult>,
     pub hash: u64,
+    /// plans derived from the canonical run's event log: one environment variable the program
+    /// looked at, set to something else (results[sc.plans.len()..] belong to these)
+    pub extra: Vec<XPlan>,
+}
+
+/// Environment variables the process asked for in the canonical run, each given two other
+/// values: whatever the program reads from its environment must not reach a value or an output.
+fn env_plans(sc: &XScenario, r0: &RunResult) -> Vec<XPlan> {
+    const VALUES: &[&str] = &["de_DE.UTF-8", "fr_FR.UTF-8", "1", "0", "", "true", "C", "always", "tr_TR", "80", "xx"];
+    let mut names: Vec<String> = vec![];
+    for e in &r0.log {
+        if e.op == "getenv" && !names.contains(&e.cls) && !matches!(e.cls.as_str(), "LD_PRELOAD" | "SIMIO_PLAN" | "SIMIO_LOG" | "PATH") {
+            names.push(e.cls.clone());
+        }
+    }
+    names.truncate(12);
+    let mut out = vec![];
+    for n in names {
+        let h = fnv64(format!("{}|{}", n, source(&sc.program)).as_bytes()) as usize;
+        // one locale-like value, one switch-like value, one of anything
+        let picks = [["de_DE.UTF-8", "fr_FR.UTF-8", "tr_TR"][h % 3], ["1", "0", "true", ""][(h / 3) % 4], VALUES[(h / 12) % VALUES.len()]];
+        for v in picks {
+            let mut xp = sc.plans[0].clone();
+            xp.plan.rules.push(Rule::Env { name: n.clone(), value: v.to_string() });
+            out.push(xp);
+        }
+    }
+    out
 }
 
 pub fn xexecute(sc: &XScenario, cli: &str, shim: &str) -> XExec {
@@ -161,7 +196,13 @@ pub fn xexecute(sc: &XScenario, cli: &str, shim: &str) -> XExec {
         h = mix(h, crate::c19::result_hash(&rr));
         results.push(rr);
     }
-    XExec { results, hash: h }
+    let extra = if results.is_empty() { vec![] } else { env_plans(sc, &results[0]) };
+    for xp in &extra {
+        let rr = run_cli(cli, shim, &invocation(sc, xp));
+        h = mix(h, crate::c19::result_hash(&rr));
+        results.push(rr);
+    }
+    XExec { results, hash: h, extra }
 }
 
 /// The emitted object of a run: stdout, or the --output file.
@@ -176,6 +217,7 @@ fn emitted(xp: &XPlan, rr: &RunResult) -> Vec<u8> {
 }
 
 pub fn xjudge(sc: &XScenario, ex: &XExec) -> Option<Viol> {
+    let all_plans: Vec<&XPlan> = sc.plans.iter().chain(ex.extra.iter()).collect();
     let r0 = &ex.results[0];
     for (k, rr) in ex.results.iter().enumerate() {
         if rr.timed_out {
@@ -188,12 +230,12 @@ pub fn xjudge(sc: &XScenario, ex: &XExec) -> Option<Viol> {
         if ok0 != okk {
             return Some(Viol {
                 clause: "cli-status-divergence".into(),
-                detail: format!("exit {:?} under the canonical plan, {:?} under plan {} ({:?})", r0.exit, rr.exit, k, sc.plans[k]),
+                detail: format!("exit {:?} under the canonical plan, {:?} under plan {} ({:?})", r0.exit, rr.exit, k, all_plans[k]),
             });
         }
         if ok0 {
             let a = emitted(&sc.plans[0], r0);
-            let b = emitted(&sc.plans[k], rr);
+            let b = emitted(all_plans[k], rr);
             if a != b {
                 return Some(Viol {
                     clause: "cli-output-divergence".into(),
@@ -379,7 +421,8 @@ pub fn xreplay(path: &str, cli: &str, shim: &str) -> i32 {
     println!("program:\n{}", source(&sc.program));
     let ex = xexecute(&sc, cli, shim);
     for (k, r) in ex.results.iter().enumerate() {
-        println!("plan {}: mode={} exit={:?} stdout={:?}", k, sc.plans[k].mode, r.exit, String::from_utf8_lossy(&r.stdout));
+        let xp = sc.plans.iter().chain(ex.extra.iter()).nth(k).unwrap();
+        println!("plan {}: mode={} exit={:?} stdout={:?}", k, xp.mode, r.exit, String::from_utf8_lossy(&r.stdout));
     }
     crate::cli::cleanup_sandboxes();
     match xjudge(&sc, &ex) {
